@@ -24,6 +24,7 @@ Fixpoint utree_eqb (a b : utree) : bool :=
 Definition result_eqb (a b : result) : bool :=
   match a, b with
   | RErr, RErr => true
+  | RNil, RNil => true
   | ROk x, ROk y => utree_eqb x y
   | _, _ => false
   end.
@@ -44,7 +45,7 @@ Definition obs_ok (k : nat) (g : graph) (n : name) (m : result) (o : obs) : bool
   | OSame b =>
       if result_eqb m (result_solo k g n) then b
       else match m with
-           | RErr => negb b     (* the codec call fails: NewRoot got no schema *)
+           | RErr | RNil => negb b   (* the codec call fails: NewRoot got no schema *)
            | ROk _ => true      (* a schema with an unlinked part: depends on the message *)
            end
   end.
